@@ -181,6 +181,32 @@ def main(argv):
     chk.obligation("oracle: sync = fallbacks; blocking returns exactly when all tasks finished with every boundary resolved; streaming = shell once, "
                    "each boundary once, never before its parent (the inline script finds its markers), shell + fragments = blocking result",
                    not [o for o in orfail if o["program"].startswith("(")], str(orfail[:1]))
+    # a Resource read under a boundary is a task registered under it, and every refetch registers again: the boundary must report
+    # loading exactly while the resource's latest fetch is outstanding (histories of C15; real sycamore-web Resource, ssr-driver)
+    import c15
+    hist = c15.gen(a.tier, rng)
+    text = "\n".join("(resource (%s) sus)" % " ".join("(%s %d)" % st for st in c) for c in hist) + "\n"
+    rc, so, se = vlib.run_driver(binr, text, timeout=3000)
+    blocks = so.rstrip("\n").split("\n==\n")
+    rfail = []
+    if rc != 0 or len(blocks) != len(hist):
+        rfail.append({"program": "resource-under-boundary", "schedule": "", "failures": [{"what": "driver run", "stderr": se[-800:]}]})
+    else:
+        for c, b in zip(hist, blocks):
+            ls = b.split("\n")
+            sched = "(resource (%s) sus)" % " ".join("(%s %d)" % st for st in c)
+            if ls[0] == "PANIC" or ls[-1] != "end panics=0":
+                rfail.append({"program": "resource-under-boundary", "schedule": sched, "failures": [{"what": "panic", "line": ls[-1]}]})
+                continue
+            body = ls[:-1]
+            bad = [{"step": j, "what": "the boundary's is_loading differs from 'the latest fetch of the resource read under it is outstanding'", "line": l}
+                   for j, l in enumerate(body) if dict(f.split("=") for f in l.split())["sus"] != dict(f.split("=") for f in l.split())["loading"]]
+            bad += [dict(f, what="(resource clause) " + f["what"]) for f in c15.oracle(c, [l.rsplit(" sus=", 1)[0] for l in body])]
+            if bad:
+                rfail.append({"program": "resource-under-boundary", "schedule": sched, "failures": bad[:3], "output": body})
+    chk.obligation("oracle: a boundary under which a Resource is read reports loading exactly while the resource's latest fetch is outstanding, through every "
+                   "refetch (%d histories of dependency writes and completions)" % len(hist), not rfail, str(rfail[:1]))
+    orfail += rfail
     chk.sample({"view": " ".join(susrender.sx(v) for v in rcases[-1][0]), "schedule": rcases[-1][1], "observed": susrender.model_lines(susrender.observe(*rimpl[-1]), rcases[-1][1])})
     if orfail:
         orfail.sort(key=lambda o: len(o["program"]) + len(o["schedule"]))
